@@ -59,7 +59,7 @@ fn shifted(items: &[Item], by: usize) -> Vec<Item> {
 }
 
 /// C07 relations (a) soundness, (b) position, (d) chunked history - all against the same build.
-fn partial_findings(s: &dyn Subject, utf8: bool, input: &[u8], full: &Obs, run: Option<&mut Run>, key: u64) -> Vec<Finding> {
+fn partial_findings(s: &dyn Subject, p: &Prepared, utf8: bool, input: &[u8], full: &Obs, run: Option<&mut Run>, key: u64) -> Vec<Finding> {
     let mut f = Vec::new();
     let len = input.len();
     let conts: [&[u8]; 6] = [b"", b"a", b" ", b"\n", b"0", "é".as_bytes()];
@@ -96,6 +96,38 @@ fn partial_findings(s: &dyn Subject, utf8: bool, input: &[u8], full: &Obs, run: 
             if o.items.len() < n || o.items[..n] != part.items[..] {
                 f.push(fnd("C07", k, format!("partial lexer over {} committed {:?} but the continuation {} lexes one-shot to {:?}", show(pre), part.items, show(&alt), o.items)));
                 return f;
+            }
+        }
+        // (c) reference determinedness: a yielded item must be determined by the buffer, and at None the
+        // pending attempt must really depend on more input (one char of slack with look-around)
+        for it in &part.items {
+            if p.reflex.wait(pre, it.start, k, &p.prio) {
+                f.push(fnd("C07", k, format!("partial lexer over {} committed {:?} although the outcome of the attempt at {} still depends on more input (reference)", show(pre), it, it.start)));
+                return f;
+            }
+        }
+        {
+            let at = part.final_span.1;
+            if at <= k && part.final_span.0 == at && !p.reflex.wait(pre, at, k, &p.prio) {
+                // determined by the prefix: must be yielded now, or with look-around one char later
+                let mut excused = false;
+                if p.reflex.has_lookaround() && k < len {
+                    let mut k2 = k + 1;
+                    while utf8 && k2 < len && (input[k2] & 0xC0) == 0x80 {
+                        k2 += 1;
+                    }
+                    let part2 = lex_catch(s, 0, &input[..k2], Mode { partial: true, ..Mode::default() });
+                    evals += 1;
+                    // one char later the determined item (or skipped region) must have been committed
+                    excused = part2.items.len() > n || part2.final_span.1 > at;
+                }
+                if !excused && p.reflex.has_lookaround() && k == len {
+                    excused = true; // cannot extend the generated input; covered by other inputs
+                }
+                if !excused {
+                    f.push(fnd("C07", k, format!("partial lexer over {} (split {k}) returned None at {at} although the next item is determined by the prefix (no continuation can change it)", show(pre))));
+                    return f;
+                }
             }
         }
         // (b) position at None
@@ -433,7 +465,7 @@ fn check_input(prop: &str, s: &dyn Subject, sd: &SubjectDef, p: &Prepared, input
                 }
             }
             "C07" => {
-                f.extend(partial_findings(s, utf8, input, &obs, run.as_deref_mut(), key));
+                f.extend(partial_findings(s, p, utf8, input, &obs, run.as_deref_mut(), key));
             }
             "C12" => {
                 if utf8 {
